@@ -1,4 +1,99 @@
+(* C14 - role-based authorization is enforced on every read and write path.
+   Property theorems only; proofs are in C14/Proofs.v.  can_do_core, default_roles,
+   evaluate_target_save_query and the path booleans sql/kv_save_checked,
+   subscribe_query_checked, sql/kv_stored_output_checked, live_output_checked are regenerated
+   from /repo on every run (Gen/Auth.v): should a check disappear from a path, the boolean
+   turns false and the corresponding theorem below no longer type-checks. *)
 From NR Require Import Lib.Base Lib.PyRt C15.Rt Gen.Auth C14.Model C14.Spec C14.Proofs.
-Theorem C14_placeholder : default_roles = anonymous.
-Proof. exact placeholder. Qed.
-Print Assumptions C14_placeholder.
+From Coq Require Import Sorting.Sorted.
+Open Scope Z_scope.
+
+(* can_do = (authentication disabled, or the token's roles - anonymous without a token - intersect
+   the roles configured for the action) *)
+Theorem C14_can_do_spec : forall c tk a, can_do c tk a = true <-> permitted c tk a.
+Proof. exact can_do_spec. Qed.
+Print Assumptions C14_can_do_spec.
+
+(* stored or broadcast -> the roles intersect those for 'save' - on BOTH backends;
+   the refusal is 'restricted' exactly when a well-formed, valid event lacks the role *)
+Theorem C14_save_checked : forall b c tk ctor_ok valid,
+  add_event b c tk ctor_ok valid = AddDone <-> ctor_ok = true /\ valid = true /\ permitted c tk ASave.
+Proof. exact add_event_done. Qed.
+Print Assumptions C14_save_checked.
+
+Theorem C14_save_restricted : forall b c tk ctor_ok valid,
+  add_event b c tk ctor_ok valid = AddRestricted <-> ctor_ok = true /\ valid = true /\ ~ permitted c tk ASave.
+Proof. exact add_event_restricted. Qed.
+Print Assumptions C14_save_restricted.
+
+(* a REQ is served (registered and its query started) only if the roles intersect those for 'query' *)
+Theorem C14_query_checked : forall c tk limit subs sid f p subs',
+  subscribe c tk limit subs sid f p = (SubStarted, subs') -> permitted c tk AQuery /\ In sid subs'.
+Proof. exact subscribe_started. Qed.
+Print Assumptions C14_query_checked.
+
+(* otherwise nothing is registered under that id and no other subscription appears *)
+Theorem C14_query_refused_nothing_registered : forall c tk limit subs sid f p o subs',
+  subscribe c tk limit subs sid f p = (o, subs') -> o <> SubStarted ->
+  ~ In sid subs' /\ (forall s, In s subs' -> In s subs).
+Proof. exact subscribe_not_started. Qed.
+Print Assumptions C14_query_refused_nothing_registered.
+
+Theorem C14_query_restricted_only_without_role : forall c tk limit subs sid f p subs',
+  subscribe c tk limit subs sid f p = (SubRestricted, subs') -> ~ permitted c tk AQuery.
+Proof. exact subscribe_restricted. Qed.
+Print Assumptions C14_query_restricted_only_without_role.
+
+Theorem C14_query_served_with_role : forall c tk limit subs sid,
+  permitted c tk AQuery ->
+  (limit = 0 \/ Z.of_nat (length (filter (fun s => negb (str_eqb s sid)) subs)) <> limit) ->
+  fst (subscribe c tk limit subs sid true true) = SubStarted.
+Proof. exact subscribe_permitted_starts. Qed.
+Print Assumptions C14_query_served_with_role.
+
+(* every event put on a connection's queue passed the configured output validator:
+   from storage (both backends) ... *)
+Theorem C14_output_checked_stored : forall (event ctx : Type) (ov : option (event -> ctx -> bool)) b x results e,
+  In e (deliver_stored event ctx ov b x results) <-> In e results /\ passes event ctx ov e x = true.
+Proof. exact deliver_stored_spec. Qed.
+Print Assumptions C14_output_checked_stored.
+
+(* ... and pushed live *)
+Theorem C14_output_checked_live : forall (event ctx : Type) (ov : option (event -> ctx -> bool)) x matched e e',
+  In e' (deliver_live event ctx ov x matched e) <-> e' = e /\ matched = true /\ passes event ctx ov e x = true.
+Proof. exact deliver_live_spec. Qed.
+Print Assumptions C14_output_checked_live.
+
+(* role assignments read back exactly as last set, for all assignment sequences: SQL auth table *)
+Theorem C14_roles_readback_sql : forall assignments pk,
+  sql_get_roles (sql_apply [] assignments) pk = expected_roles assignments pk.
+Proof. exact roles_readback_sql. Qed.
+Print Assumptions C14_roles_readback_sql.
+
+(* LMDB: over the abstract "newest kind-31494 service event per d value wins" store, for all
+   assignment sequences made at strictly increasing clock values *)
+Theorem C14_roles_readback_kv : forall ops pk,
+  StronglySorted (fun a b => op_time a < op_time b) ops ->
+  kv_get_roles (kv_apply [] ops) pk = expected_roles (map op_assign ops) pk.
+Proof. exact roles_readback_kv. Qed.
+Print Assumptions C14_roles_readback_kv.
+
+(* the boolean of the executable statement is the statement *)
+Theorem C14_oracle_is_statement : forall c tk a, permittedb c tk a = true <-> permitted c tk a.
+Proof. exact permittedb_spec. Qed.
+Print Assumptions C14_oracle_is_statement.
+
+(* ---------------------------------------------------------------- non-vacuity *)
+Definition ex_cfg : authcfg := {| ac_enabled := true; ac_save := pys "w"; ac_query := pys "rs" |}.
+Example C14_ex_cells :
+  add_event Kv ex_cfg (Some (pys "rw")) true true = AddDone /\
+  add_event Kv ex_cfg (Some (pys "r")) true true = AddRestricted /\
+  add_event Sql ex_cfg None true true = AddRestricted /\
+  subscribe ex_cfg (Some (pys "s")) 32 [pys "s"] (pys "s") true true = (SubStarted, [pys "s"]) /\
+  subscribe ex_cfg None 32 [pys "old"] (pys "s") true true = (SubRestricted, [pys "old"]) /\
+  deliver_live pystr unit (Some (fun a _ => negb (str_eqb a (pys "M")))) tt true (pys "M") = [] /\
+  deliver_live pystr unit (Some (fun a _ => negb (str_eqb a (pys "M")))) tt true (pys "C") = [pys "C"] /\
+  sql_get_roles (sql_apply [] [(pys "k", pys "r"); (pys "j", pys "s"); (pys "k", pys "Ww")]) (pys "k") = pys "ww" /\
+  kv_get_roles (kv_apply [] [(1, pys "k", pys "r"); (2, pys "j", pys "s"); (3, pys "k", pys "Ww")]) (pys "k") = pys "ww" /\
+  kv_get_roles (kv_apply [] [(1, pys "k", pys "r")]) (pys "other") = anonymous.
+Proof. vm_compute. repeat split. Qed.
